@@ -137,6 +137,8 @@ type Env struct {
 	known    map[string]witness.LogInfo
 	// ConfigDiff: how the repository's own log map differs from what was configured ("" = not at all).
 	ConfigDiff string
+	// Diverged: replaying an accepted request sequence gave another answer (reported).
+	Diverged bool
 	// Blocked: a guarded call never returned; the environment is unusable.
 	Blocked bool
 	inGuard bool
